@@ -96,6 +96,44 @@ func valueConds(v ssa.Value, p Path, pol bool, depth int) (conds []Cond, feasibl
 	return []Cond{{V: v, True: pol}}, true
 }
 
+// ReachConds: for every feasible path from fn's entry to block b, what holds
+// on it — the branch conditions taken, with a branch on a computed boolean
+// (`ok := a && b; if !ok {…}`, a phi) resolved into the conditions of the edge
+// the path took. Paths on which such a value cannot have the polarity the
+// branch needs are dropped. "Test T guards b" is then "every path has T",
+// however the author combined the tests.
+func ReachConds(fn *ssa.Function, b *ssa.BasicBlock) (out [][]Cond, ok bool) {
+	paths, pok := PathsTo(fn, b, 4096)
+	if !pok {
+		return nil, false
+	}
+	for _, p := range paths {
+		if !Feasible(p) {
+			continue
+		}
+		var cs []Cond
+		feasible := true
+		for _, c := range p.Conds() {
+			upto := p
+			if c.Idx+1 <= len(p) {
+				upto = p[:c.Idx+1]
+			}
+			ex, feas := valueConds(c.V, upto, c.True, 0)
+			if !feas {
+				feasible = false
+				break
+			}
+			for _, e := range ex {
+				cs = append(cs, NormCond(e))
+			}
+		}
+		if feasible {
+			out = append(out, cs)
+		}
+	}
+	return out, true
+}
+
 // ResultPaths: the feasible paths of fn on which bool result #idx may equal
 // want, each with its conditions.
 func ResultPaths(fn *ssa.Function, idx int, want bool) (out []CondPath, ok bool) {
